@@ -20,6 +20,8 @@ pub(super) struct MulAddFusion<F> {
     use_counts: HashMap<WitnessId, usize>,
     defs: HashMap<WitnessId, IndexedDef<F>>,
     backwards_computed: HashMap<WitnessId, usize>,
+    /// Witnesses written by more than one op (slot shared through `connect`).
+    multi_def: hashbrown::HashSet<WitnessId>,
 }
 
 impl<F: Field> MulAddFusion<F> {
@@ -29,6 +31,7 @@ impl<F: Field> MulAddFusion<F> {
             use_counts: HashMap::new(),
             defs: HashMap::with_capacity(ops.len()),
             backwards_computed: HashMap::new(),
+            multi_def: hashbrown::HashSet::new(),
         };
         fusion.scan_use_counts(ops);
         fusion.scan_defs(ops);
@@ -60,6 +63,9 @@ impl<F: Field> MulAddFusion<F> {
 
     /// Inserts a def unless the witness is already a Const (connect aliasing).
     fn insert_def(&mut self, id: WitnessId, idx: usize, def: OpDef<F>) {
+        if self.defs.contains_key(&id) {
+            self.multi_def.insert(id);
+        }
         if !self.is_const(&id) {
             self.defs.insert(id, IndexedDef::new(idx, def));
         }
@@ -102,6 +108,9 @@ impl<F: Field> MulAddFusion<F> {
             match op {
                 Op::Const { out, val } => {
                     // Always insert consts (they win over any prior def).
+                    if self.defs.contains_key(out) {
+                        self.multi_def.insert(*out);
+                    }
                     self.defs
                         .insert(*out, IndexedDef::new(idx, OpDef::Const(*val)));
                 }
@@ -200,6 +209,13 @@ impl<F: Field> MulAddFusion<F> {
 
         // Single-use, non-const mul
         if self.uses(&mul_result) != 1 || self.is_const(&mul_result) {
+            return None;
+        }
+
+        // The product must be computed before the add, and its slot must not be written by
+        // any other op (e.g. a `Public` row or another ALU output aliased via `connect`):
+        // fusing would keep the product only as `intermediate_out`, which no table enforces.
+        if mul_idx >= add_idx || self.multi_def.contains(&mul_result) {
             return None;
         }
 
